@@ -13,7 +13,8 @@ def main():
     prop, rnd = sys.argv[1], sys.argv[2]
     rest = sys.argv[3:]
     benign = "--benign" in rest
-    steer = " ".join(x for x in rest if x != "--benign")
+    multi = "--multi" in rest
+    steer = " ".join(x for x in rest if x not in ("--benign", "--multi"))
     p = next(json.loads(l) for l in open(os.path.join(ROOT, "properties.jsonl")) if json.loads(l)["id"] == prop)
     wt = f"/tmp/seed-{prop}-{rnd}"
     if not os.path.isdir(wt):
@@ -55,6 +56,10 @@ DELIVERABLES (all inside {wt}/seeded/ - create that directory):
 2. {wt}/seeded/meta.json: {{"property": "{prop}", "summary": "<what the change does>", "why_property_still_holds": "<argument, clause by clause>", "files": ["<changed files>"]}}
 3. {wt}/seeded/demo.py: a small program that imports robotools from "{wt}", exercises the changed code paths through the public API and checks the property's clauses on a few cases; it must exit 0 with your change AND without it.
 Confirm yourself: test suite passes with the change (148 passed). Do not edit tests. Do not commit. `git stash` is NOT allowed. Finish with the change applied. Report briefly what you did."""
+    if multi and not benign:
+        text = text.replace("YOUR TASK: write a realistic change", "YOUR TASK: write TWO INDEPENDENT realistic changes (different mechanisms, different places; each on its own, starting from the unmodified code). For each: a realistic change")
+        text = text.replace(f"DELIVERABLES (all inside {wt}/seeded/ - create that directory):", f"DELIVERABLES - for change k = 1 and 2 a directory {wt}/seeded/<k>/ holding patch.diff, demo.py and meta.json as described below (read 'seeded/' as 'seeded/<k>/'). Each patch.diff must apply to the UNMODIFIED code (git checkout -- robotools between the two). At the end leave the worktree clean of source changes (git checkout -- robotools); only the seeded/ directory remains. Per change:")
+        text = text.replace("Finish with the change applied.", "Finish with the worktree source unmodified.")
     print(text)
 
 
